@@ -68,7 +68,7 @@ def records_for(old, new, label):
     d = diffing.build_diff(old, new)
     tgt = copy.deepcopy(old)
     diffing.apply_diff(d, tgt)
-    expected, _ = H.project(tgt)
+    expected, _ = H.project_sorted(tgt)
   except Exception:  # judged by C10  # pylint: disable=broad-except
     return recs
   for naming, with_old in MODES:
@@ -96,7 +96,7 @@ def records_for(old, new, label):
       tgt2 = copy.deepcopy(old)
       ns['fiddler'](tgt2)
       rec['ran'] = 'ok'
-      rec['result'] = H.project(tgt2)[0]
+      rec['result'] = H.project_sorted(tgt2)[0]
     except Exception as e:  # pylint: disable=broad-except
       rec['ran'] = 'raise:' + type(e).__name__
     recs.append(rec)
@@ -180,7 +180,7 @@ def assembled_diffs():
     try:
       tgt = copy.deepcopy(old)
       diffing.apply_diff(d, tgt)
-      expected = H.project(tgt)[0]
+      expected = H.project_sorted(tgt)[0]
     except Exception as e:  # a diff apply_diff itself rejects is no test of the fiddler
       continue
     for naming, with_old in MODES:
@@ -198,7 +198,7 @@ def assembled_diffs():
         t2 = copy.deepcopy(old)
         ns['fiddler'](t2)
         rec['ran'] = 'ok'
-        rec['result'] = H.project(t2)[0]
+        rec['result'] = H.project_sorted(t2)[0]
       except Exception as e:  # pylint: disable=broad-except
         rec['ran'] = 'raise:' + type(e).__name__
       recs.append(rec)
